@@ -444,7 +444,3 @@ Proof.
   (Forall_nil _)))))))))))))))))))))))))))))))))))))))))))))))))))))))))))))))))))))))))))))))))))))))))))))))))).
 Qed.
 
-(* LAST (expected to break on a tree where CIF.save consumes the builder's id generator): assembling the author
-   chunks of a CIF builder must not modify the builder *)
-Theorem no_arg_write_CIF__assemble_authors : no_arg_write F_cif_CIF__assemble_authors.
-Proof. enumerate. Qed.
